@@ -301,6 +301,18 @@ impl<I: Ip> TorrentMapShards<I> {
             for (info_hash, peer_map) in torrent_references {
                 let mut peer_map = peer_map.write();
 
+                // Torrents forbidden by the access list are removed below.
+                // Drop their peers here, so that they are neither counted
+                // nor exported, and are retired from peer client statistics.
+                if !access_list_cache
+                    .load()
+                    .allows(access_list_mode, &info_hash.0)
+                {
+                    peer_map.remove_all_peers(config, statistics_messages);
+
+                    continue;
+                }
+
                 let (num_seeders, num_leechers) = match peer_map.deref_mut() {
                     PeerMap::Small(small_peer_map) => {
                         small_peer_map.clean_and_get_num_peers(config, statistics_messages, now)
@@ -559,6 +571,30 @@ impl<I: Ip> PeerMap<I> {
             Self::Small(peer_map) => peer_map.0.is_empty(),
             Self::Large(peer_map) => peer_map.peers.is_empty(),
         }
+    }
+
+    /// Remove all peers, reporting them as removed to the statistics worker
+    fn remove_all_peers(
+        &mut self,
+        config: &Config,
+        statistics_messages: &mut Vec<StatisticsMessage>,
+    ) {
+        if config.statistics.peer_clients {
+            match self {
+                Self::Small(peer_map) => {
+                    for (_, peer) in peer_map.0.iter() {
+                        statistics_messages.push(StatisticsMessage::PeerRemoved(peer.peer_id));
+                    }
+                }
+                Self::Large(peer_map) => {
+                    for peer in peer_map.peers.values() {
+                        statistics_messages.push(StatisticsMessage::PeerRemoved(peer.peer_id));
+                    }
+                }
+            }
+        }
+
+        *self = Self::default();
     }
 }
 
